@@ -14,7 +14,7 @@ Insert(b) == /\ n < MaxOps
              /\ store' = StorePut(store, b, n + 1)
              /\ tree' = TreePut(tree, b, n + 1)
              /\ seen' = IF allseen THEN seen ELSE Append(seen, b)
-             /\ n' = n + 1 /\ UNCHANGED allseen
+             /\ n' = n + 1 /\ allseen' = (allseen \/ b = Unbound)     \* an empty binding covers every lookup
              /\ hist' = Append(hist, [op |-> "insert", b |-> b, o |-> n + 1])
 Clear == /\ n < MaxOps /\ n > 0
          /\ store' = <<>> /\ tree' = EmptyTree /\ seen' = <<>> /\ allseen' = FALSE /\ n' = n + 1
